@@ -132,7 +132,7 @@ def def_facts(year, terms, depth, exclude):
     return facts
 
 
-def prove_nonneg(year, fld, nonneg, depth=6):
+def prove_nonneg(year, fld, nonneg, depth=6, extra=()):
     """-> (status, detail, witness_model, path) for 'every return path of fld yields a value >= 0'."""
     paths = linevc.explore_line(year, fld)
     if any(p.outcome[0] == 'unsupported' for p in paths):
@@ -149,12 +149,12 @@ def prove_nonneg(year, fld, nonneg, depth=6):
         nret += 1
         val = sym.term(v, 'real')
         terms = [val] + p.conds + p.facts
-        st0 = smt.prove(p.conds + p.facts + read_hyps(year, terms, nonneg) + sigma_nonneg(year, terms, nonneg, []), val >= 0, timeout_ms=3000)[0]
+        st0 = smt.prove(p.conds + p.facts + list(extra) + read_hyps(year, terms, nonneg) + sigma_nonneg(year, terms, nonneg, []), val >= 0, timeout_ms=3000)[0]
         if st0 == 'discharged':
             continue
         defs = def_facts(year, terms, depth, {fld.name()})
         terms = terms + defs
-        hyps = defs + read_hyps(year, terms, nonneg, cents=True)
+        hyps = list(extra) + defs + read_hyps(year, terms, nonneg, cents=True)
         hyps += sigma_nonneg(year, terms, nonneg, hyps)
         st, model, be, secs, txt = smt.prove(p.conds + p.facts + hyps, val >= 0, timeout_ms=5000)
         if st == 'undecided':
@@ -200,7 +200,31 @@ def nonneg_task(year, form_name, names, nonneg_list):
             obs.append(Ob(id=oid, status=oblig.REFUTED if st == 'refuted' else oblig.UNDECIDED, backend='z3', function=fid, clause='NOT: ' + clause,
                           solver_output=detail, witness=wit, replay=rep, vc=' AND '.join(str(c)[:120] for c in (p.conds[-5:] if p else [])),
                           replay_spec={'kind': 'line', 'year': year, 'line': fld.name(), 'inputs': wit.get('inputs', {}), 'values': wit.get('values', {})}))
+            # a recorded finding covers a class of failing reads; a negative value outside that class is a different violation
+            cond = recorded_condition(oid, year)
+            if cond is not None:
+                st2, detail2, mdl2, p2 = prove_nonneg(year, fld, nonneg, extra=[z3.Not(cond)])
+                if st2 != 'discharged':
+                    wit2 = {}
+                    if mdl2 is not None:
+                        i2, v2 = replay.concretise(mdl2, year)
+                        wit2 = {'inputs': {k: repr(v) for k, v in i2.items()}, 'values': {k: repr(v) for k, v in v2.items()}}
+                    obs.append(Ob(id=oid + '/outside-recorded-input-class', status=oblig.REFUTED if st2 == 'refuted' else oblig.UNDECIDED, backend='z3', function=fid,
+                                  clause='NOT: ' + clause + ' [also outside the class of reads the recorded finding names]', solver_output=detail2, witness=wit2, replay={'reproduced': False}))
     return obs
+
+
+def recorded_condition(oid, year):
+    for f in oblig.load_findings().get('findings', []):
+        if f.get('obligation') == oid and f.get('condition'):
+            c = f['condition']
+            cat = linevc.Cat.get(year)
+            fld = cat.fields.get(c['symbol']) if c.get('acc', 'v') == 'v' else None
+            kind = linevc.field_kind(fld)[0] if fld is not None else c.get('kind', 'real')
+            t = linevc.read_symbol(c.get('acc', 'v'), c['symbol'], kind, None)
+            v = c['value']
+            return {'<': t < v, '<=': t <= v, '>': t > v, '>=': t >= v, '==': t == v, '!=': t != v}[c['op']]
+    return None
 
 
 def balance_module():
